@@ -381,3 +381,38 @@ class TreeHopToRouteSet:
                             all((r in g_pair.outs) == (r in out_directions) for r in ROUTES)
                             and _trace[n - 1] == ("in_added", arrives)
                             and all(t[0] == "get" and t[1] == (x, y) and t[2] == (key, mask) for t in _trace[1:n - 1])))
+
+
+# ---- routing_tree_to_tables: the table entry made from what was collected for one (key, mask) on one chip (fragment) -----------------
+
+
+def _rt_chip(E, obj, args, kwargs, st, node):
+    return [(st, _ObjV10("ChipTable", {"chip": args[0]}), None)]
+
+
+def _rt_append(E, obj, args, kwargs, st, node):
+    s = st.copy()
+    s.trace = _ListV10(s.trace.items + (("entry", obj.fields["chip"], args[0]),))
+    return [(s, _NONE10, None)]
+
+
+@contract("rig/routing_table/utils.py::routing_tree_to_tables@forbody:3")
+class CollectedHopsToEntry:
+    """what was collected for one (key, mask) on one chip becomes ONE entry of that chip's table: the route is exactly the collected
+    outgoing directions, the sources exactly the collected arrival directions, under exactly that key and mask"""
+    properties = ("C10", "C01")
+    params = dict(x=TInt(0, 255), y=TInt(0, 255), key=TInt(0, 2 ** 32 - 1), mask=TInt(0, 2 ** 32 - 1),
+                  route=_TRec10("InOutPair", ins=TSmallSet([None] + ROUTES), outs=TSmallSet(ROUTES)), routing_tables=_TRec10("Tables"))
+    fragment_result = ()
+    fragment_head = "for (key, mask), route in iteritems(routes):"
+    externals = {"Tables.__getitem__": _rt_chip, "ChipTable.append": _rt_append}
+    options = {"int_class": "rig/routing_table/entries.py::Routes"}
+
+    def native(x):
+        raise __import__("pyvc.replay", fromlist=["OutsideHarness"]).OutsideHarness()
+
+    def ensures_one_entry_with_exactly_the_collected_directions(x, y, key, mask, route, _trace):
+        e = _trace[0][2]
+        return (len(_trace) == 1 and _trace[0][0] == "entry" and _trace[0][1] == (x, y) and e.key == key and e.mask == mask
+                and all((r in e.route) == (r in route.outs) for r in ROUTES)
+                and all((r in e.sources) == (r in route.ins) for r in [None] + ROUTES))
